@@ -2,7 +2,9 @@ import Model.C18
 import Proofs.C18
 import Proofs.C18.Graph
 import Proofs.C18.Init
+import Proofs.C18.InitFail
 import Proofs.C18.Run
+import Proofs.C18.Live
 /-!
 # C18 — property theorems (statements; proofs live in `Proofs/C18/*.lean`)
 
@@ -135,6 +137,119 @@ theorem init_only_needed (g : Graph) (cfg : Cfg) (r : Mod → Nat) (hr : Ranked 
 example : (initModules diamondish { hasInit := [true, false, true], initErr := [], hasSvc := [true, true, true] } 5
     (fun _ _ => [1, 0]) 0 [1, 2] {}).map (·.log) = .ok [0, 2] := by decide
 
+/-! ### `InitModuleServices`: the failing exits
+
+`initModulesT` is `initModules` that also returns the state at the moment the error is returned
+(`init_exits_agree`): `inited` = initMap, `log` = the `initFn` calls made, `svcs` = keys of servicesMap. -/
+
+theorem init_exits_agree (g : Graph) (cfg : Cfg) (fuel : Nat) (orders : Nat → Nat → List Mod) (ts : List Mod) :
+    initModules g cfg fuel orders 0 ts {} = match initModulesT g cfg fuel orders 0 ts {} with
+      | (s, none) => .ok s
+      | (_, some e) => .error e :=
+  initModules_eq g cfg fuel orders 0 ts {}
+
+/-- **An init function returns an error.** The error names the module whose `initFn` failed; that
+module is needed, its call is the last one made, it is not marked initialised, and every module it
+(transitively) depends on had been initialised before. -/
+theorem init_error_names_failing_module (g : Graph) (cfg : Cfg) (r : Mod → Nat) (hr : Ranked g r) (fuel : Nat)
+    (orders : Nat → Nat → List Mod) (targets : List Mod) (st : InitState) (n : Mod)
+    (hfuel : ∀ t ∈ targets, r t < fuel) (hord : ∀ c k t x, t ∈ targets → Reach g t x → x ∈ orders c k)
+    (h : initModulesT g cfg fuel orders 0 targets {} = (st, some (.initFailed n))) :
+    hasInitOf cfg n = true ∧ initErrOf cfg n = true ∧ Needed g targets n ∧ n ∉ st.inited ∧
+      st.log = st.inited.filter (hasInitOf cfg) ++ [n] ∧ ∀ d, Reach g n d → d ∈ st.inited := by
+  have hp := (init_all_exits g cfg r hr fuel orders targets hfuel hord).2
+  rw [h] at hp
+  obtain ⟨pre, t, post, htg, hnt, h1, h2, h3, h4, h5, _, _, _⟩ := hp
+  refine ⟨h2, h3, ?_, h1, h4, h5⟩
+  have htm : t ∈ targets := by rw [htg]; simp
+  rcases hnt with rfl | hnt
+  · exact Or.inl htm
+  · exact Or.inr ⟨t, htm, hnt⟩
+
+/-- … and no module that depends on the failed one has been initialised; what has been initialised is
+a duplicate-free, dependency-ordered list of needed modules whose own init functions all succeeded, and
+only the targets up to the one being processed were touched. -/
+theorem init_error_no_dependant_initialised (g : Graph) (cfg : Cfg) (r : Mod → Nat) (hr : Ranked g r) (fuel : Nat)
+    (orders : Nat → Nat → List Mod) (targets : List Mod) (st : InitState) (n : Mod)
+    (hfuel : ∀ t ∈ targets, r t < fuel) (hord : ∀ c k t x, t ∈ targets → Reach g t x → x ∈ orders c k)
+    (h : initModulesT g cfg fuel orders 0 targets {} = (st, some (.initFailed n))) :
+    (∀ x ∈ st.inited, ¬ Reach g x n) ∧ st.inited.Nodup ∧ topoFrom g [] st.inited ∧
+      (∀ x ∈ st.inited, hasInitOf cfg x = true → initErrOf cfg x = false) ∧
+      ∃ pre t post, targets = pre ++ t :: post ∧ (n = t ∨ Reach g t n) ∧
+        (∀ x ∈ st.inited, Needed g (pre ++ [t]) x) ∧ (∀ x, Needed g pre x → x ∈ st.inited) := by
+  obtain ⟨hi, hp⟩ := init_all_exits g cfg r hr fuel orders targets hfuel hord
+  rw [h] at hp hi
+  obtain ⟨pre, t, post, htg, hnt, _, _, _, _, _, h6, h7, h8⟩ := hp
+  exact ⟨h6, hi.nodup, hi.topo, hi.clean, pre, t, post, htg, hnt, h7, h8⟩
+
+/-- **Unknown target.** The error names the first target that is not registered; the targets before it
+have been initialised completely and exactly (as in the success case), nothing else has. -/
+theorem init_unknown_target (g : Graph) (cfg : Cfg) (r : Mod → Nat) (hr : Ranked g r) (fuel : Nat)
+    (orders : Nat → Nat → List Mod) (targets : List Mod) (st : InitState) (t : Mod)
+    (hfuel : ∀ t ∈ targets, r t < fuel) (hord : ∀ c k t x, t ∈ targets → Reach g t x → x ∈ orders c k)
+    (h : initModulesT g cfg fuel orders 0 targets {} = (st, some (.unrecognised t))) :
+    ∃ pre post, targets = pre ++ t :: post ∧ g.has t = false ∧ (∀ u ∈ pre, g.has u = true) ∧
+      st.log = st.inited.filter (hasInitOf cfg) ∧ (∀ x, x ∈ st.inited ↔ Needed g pre x) ∧
+      st.inited.Nodup ∧ topoFrom g [] st.inited := by
+  obtain ⟨hi, hp⟩ := init_all_exits g cfg r hr fuel orders targets hfuel hord
+  rw [h] at hp hi
+  obtain ⟨pre, post, h1, h2, h3, h4, h5⟩ := hp
+  exact ⟨pre, post, h1, h2, h3, h4, h5, hi.nodup, hi.topo⟩
+
+/-- **Nil service / every exit.** Whatever the exit, `servicesMap` holds exactly the initialised modules
+whose `initFn` exists and returned a non-nil service (a module whose `initFn` returns a nil service is
+initialised but gets no wrapper); success requires every target to be registered; and the recursion of
+`listDeps` always bottoms out (no `crash` exit on an acyclic graph). -/
+theorem init_services_map (g : Graph) (cfg : Cfg) (r : Mod → Nat) (hr : Ranked g r) (fuel : Nat)
+    (orders : Nat → Nat → List Mod) (targets : List Mod)
+    (hfuel : ∀ t ∈ targets, r t < fuel) (hord : ∀ c k t x, t ∈ targets → Reach g t x → x ∈ orders c k) :
+    let res := initModulesT g cfg fuel orders 0 targets {}
+    res.1.svcs = res.1.inited.filter (fun x => hasInitOf cfg x && hasSvcOf cfg x) ∧
+    (res.2 = none → ∀ t ∈ targets, g.has t = true) ∧ res.2 ≠ some .crash := by
+  intro res
+  obtain ⟨hi, hp⟩ := init_all_exits g cfg r hr fuel orders targets hfuel hord
+  refine ⟨hi.svcs, ?_, ?_⟩
+  · intro hn
+    unfold ModsPost at hp
+    rw [show (initModulesT g cfg fuel orders 0 targets {}).2 = none from hn] at hp
+    exact hp.1
+  · intro hc
+    unfold ModsPost at hp
+    rw [show (initModulesT g cfg fuel orders 0 targets {}).2 = some .crash from hc] at hp
+    exact hp
+
+/-- **Dependency cycles.** Every graph that can be built by registering `n` modules and calling
+`AddDependency` any number of times (accepted or rejected) is acyclic, `AddDependency` itself never
+recurses without bound on it, and so `InitModuleServices` never does either (`init_services_map`
+with the bounded rank below: recursion depth at most `n + 1`). -/
+theorem graphs_built_by_AddDependency_are_acyclic (n : Nat) (calls : List (Mod × List Mod)) :
+    Acyclic (buildGraph n calls) ∧ (buildGraph n calls).n = n ∧
+    (∃ r, Ranked (buildGraph n calls) r ∧ ∀ m, r m < n + 1) ∧
+    ∀ name ds, (addDependency (buildGraph n calls) (n + 1) name ds).1 ≠ .crash := by
+  obtain ⟨h1, h2⟩ := buildGraph_acyclic n calls
+  obtain ⟨r, hr, hb⟩ := ranked_bounded _ h1
+  refine ⟨h1, h2, ⟨r, hr, fun m => by have := hb m; omega⟩, fun name ds => ?_⟩
+  have := addDependency_no_crash _ h1 name ds
+  rwa [h2] at this
+
+/-- **User-invisible modules.** Options only ever hide a module: a user-visible module is targetable,
+the last option wins; `InitModuleServices` does not look at either flag (it is not a parameter of
+`initModules`), so an invisible or non-targetable module initialises like any other. -/
+theorem module_options (opts : List ModOpt) (o : ModOpt) :
+    ((applyOpts opts).1 = true → (applyOpts opts).2 = true) ∧ applyOpts [] = (true, true) ∧
+    applyOpts (opts ++ [.userInvisible]) = (false, false) ∧
+    applyOpts (opts ++ [.userInvisibleTargetable]) = (false, true) :=
+  ⟨applyOpts_visible_targetable opts, rfl, applyOpts_last_wins opts .userInvisible,
+   applyOpts_last_wins opts .userInvisibleTargetable⟩
+
+/-- non-vacuity: module 1 (needed by 2) fails: 0 was initialised, 2 is not; an unknown target after a good one. -/
+example :
+    initModulesT diamondish { hasInit := [true, true, true], initErr := [false, true, false], hasSvc := [true, true, true] } 5
+      (fun _ _ => [0, 1]) 0 [2] {} = ({ inited := [0], log := [0, 1], svcs := [0] }, some (.initFailed 1)) ∧
+    initModulesT diamondish { hasInit := [true, true, true], initErr := [], hasSvc := [true, false, true] } 5
+      (fun _ _ => [0, 1]) 0 [1, 7, 2] {} = ({ inited := [0, 1], log := [0, 1], svcs := [0] }, some (.unrecognised 7)) := by
+  decide
+
 /-! ### run time: the wrappers -/
 
 /-- A module's own service is started only after the wrappers of all its (transitive) dependencies
@@ -189,6 +304,47 @@ theorem dep_failure_propagates_progress (mods : List Mod) (sd td : Mod → List 
   intro s d m hd hf hw
   exact ⟨failed_to_start_stable_run s more d hf hw,
     fun hs hnt => fail_step_enabled s (rinv_run _ (rinv_init mods sd td) evs) m d hd hf hw hs hnt⟩
+
+/-- **The system of wrappers can always finish** (liveness without fairness). From every reachable
+state, for every dependency graph (the "stops after" relation `td` is ranked: it is the inverse of the
+transitive dependencies of a DAG, see `stop_relation_of_a_dag_is_ranked`), the fixed computable schedule
+`finishSchedule mods` — ask every wrapper to stop, let every wait return and every inner function return
+nil, `|mods|` rounds — leaves every module Terminated or Failed: no reachable state is a deadlock among
+the wrapper services. Every state on the way is reachable, so the stop order is respected throughout. -/
+theorem system_can_always_finish (mods : List Mod) (sd td : Mod → List Mod) (hr : StopRanked mods td)
+    (evs : List REv) :
+    let s := (Sys.init mods sd td).run evs
+    (∀ m ∈ mods, ((s.run (finishSchedule mods)).st m).ph.terminal = true) ∧
+    ∀ k, let sk := s.run ((finishSchedule mods).take k)
+      ∀ m, (sk.st m).iStopReq = true → (sk.st m).wasRunning = true → ∀ x ∈ sk.stopDeps m, (sk.st x).ph.terminal = true := by
+  intro s
+  refine ⟨?_, ?_⟩
+  · apply finish_all mods s (sane_run _ evs (sane_init mods sd td))
+    rw [run_stopDeps]; exact hr
+  · intro k sk m h1 h2
+    have hi : RInv sk := rinv_run _ (rinv_run _ (rinv_init mods sd td) evs) _
+    rcases hi.req m h1 with h | h
+    · exact hi.stopped m h
+    · rw [h2] at h; cases h
+
+/-- the relation "x must have stopped before m stops" that `InitModuleServices` hands to the wrappers
+(x transitively depends on m) is ranked on every acyclic graph. -/
+theorem stop_relation_of_a_dag_is_ranked (g : Graph) (hg : Acyclic g) (mods : List Mod) (td : Mod → List Mod)
+    (h : ∀ m ∈ mods, ∀ x ∈ td m, x ∈ mods ∧ Reach g x m) : StopRanked mods td := by
+  obtain ⟨r, hr, hb⟩ := ranked_bounded g hg
+  refine ⟨fun y => g.n - r y, fun m hm x hx => ⟨(h m hm x hx).1, ?_⟩⟩
+  have := hr.reach (h m hm x hx).2
+  have := hb x
+  show g.n - r x < g.n - r m
+  omega
+
+/-- non-vacuity: 1 depends on 0; a state in the middle of start-up (0 running, 1's inner service
+starting) is finished by the schedule, the dependant first. -/
+example :
+    let s := (Sys.init [0, 1] (fun m => if m = 1 then [0] else []) (fun m => if m = 0 then [1] else [])).run
+      [.wStart 0, .wStart 1, .depsDone 0, .iStartRet 0 true, .innerUp 0, .awaitOk 1 0, .depsDone 1]
+    let s' := s.run (finishSchedule [0, 1])
+    (s.st 0).ph = .run ∧ (s.st 1).ph = .innerStart ∧ (s'.st 0).ph = .term ∧ (s'.st 1).ph = .failed := by decide +kernel
 
 /-- non-vacuity: module 1 depends on module 0; 0 starts and runs, then 1's service is started; and a
 run in which 0 fails to start, so that 1 (started) fails without its service ever being started. -/
